@@ -486,6 +486,92 @@ pub fn short_code_then_stored(zlib: Option<(u8, u8)>) -> Vec<GenStream> {
     out
 }
 
+/// Consecutive dynamic blocks whose codes have *many* long (13-15 bit) codewords hanging under a
+/// few short prefixes, in different symbol-to-length assignments from block to block: the
+/// decoder's overflow tree for codes longer than its fast table is then large (2 entries per inner
+/// node) and must be rebuilt from scratch for every block. Distance alphabet: lengths
+/// {1..10, 13x2, 14x6, 15x12}; literal/length alphabet: {1..6, 13x60, 14x52, 15x168}.
+pub fn bushy_deep_streams(zlib: Option<(u8, u8)>) -> Vec<GenStream> {
+    let mut out = vec![];
+    let dbase: Vec<u8> = (1..=10u8).chain([13, 13]).chain(std::iter::repeat(14).take(6)).chain(std::iter::repeat(15).take(12)).collect();
+    let lbase: Vec<u8> = (1..=6u8).chain(std::iter::repeat(13).take(60)).chain(std::iter::repeat(14).take(52)).chain(std::iter::repeat(15).take(168)).collect();
+    let perm = |base: &[u8], k: usize| -> Vec<u8> {
+        let n = base.len();
+        match k {
+            0 => base.to_vec(),
+            1 => base.iter().rev().cloned().collect(),
+            _ => (0..n).map(|i| base[(i * 7 + 3) % n]).collect(),
+        }
+    };
+    let h = history(32768, 77);
+    // every distance symbol used by a match (base distance and base + max extra)
+    let mut dtoks: Vec<Token> = vec![];
+    for sidx in 0..30usize {
+        let base = DIST_BASE_T[sidx] as u32;
+        let hi = (base + (1u32 << DIST_XBITS[sidx]) - 1).min(32768);
+        dtoks.push(m(3 + sidx as u16, base as u16));
+        dtoks.push(m(131 + sidx as u16, hi as u16));
+        dtoks.push(lit(0x41 + sidx as u8));
+    }
+    // every literal once, plus a few matches
+    let mut ltoks: Vec<Token> = (0..=255u16).map(|b| lit(b as u8)).collect();
+    for (i, l) in [3u16, 4, 10, 11, 18, 19, 34, 35, 66, 67, 130, 131, 257, 258].iter().enumerate() {
+        ltoks.push(m(*l, 1 + i as u16));
+    }
+    let dspec = |k: usize| -> DynSpec {
+        let s0 = dyn_spec_for(&dtoks, CodeShape::Flat, CodeShape::Flat).unwrap();
+        DynSpec::new(s0.ll, perm(&dbase, k))
+    };
+    let lspec = |k: usize| -> DynSpec {
+        let s0 = dyn_spec_for(&ltoks, CodeShape::Flat, CodeShape::Flat).unwrap();
+        DynSpec::new(perm(&lbase, k), s0.dl)
+    };
+    for seq in [vec![0usize, 1], vec![1, 0], vec![0, 2], vec![0, 0], vec![0, 1, 0], vec![2, 1, 2]] {
+        for kind in 0..2 {
+            let mut b = StreamBuilder::new(zlib);
+            push_history(&mut b, &h);
+            for (i, &k) in seq.iter().enumerate() {
+                let last = i + 1 == seq.len();
+                if kind == 0 {
+                    b.dynamic(&dspec(k), &dtoks, last);
+                } else {
+                    b.dynamic(&lspec(k), &ltoks, last);
+                }
+            }
+            out.push(b.finish());
+        }
+    }
+    out
+}
+
+/// The `short_code_then_stored` shape placed so that the stored block begins exactly at, or 1-2
+/// bytes before, the end of the first 32 KiB of plaintext (the window of the streaming wrapper is
+/// full at the moment the bytes that were read ahead into the bit buffer are stored).
+pub fn short_code_then_stored_at_window_end(zlib: Option<(u8, u8)>) -> Vec<GenStream> {
+    let mut out = vec![];
+    let mut ll = vec![0u8; 257];
+    ll[b'a' as usize] = 1;
+    ll[b'b' as usize] = 2;
+    ll[256] = 2;
+    let spec = DynSpec::new(ll, vec![0]);
+    let h = history(32768, 5);
+    for nlit in [0usize, 3, 7, 12, 17] {
+        for before in 0..=3usize {
+            for slen in [1usize, 4, 9] {
+                let toks: Vec<Token> = (0..nlit).map(|i| if i % 3 == 2 { lit(b'b') } else { lit(b'a') }).collect();
+                let data: Vec<u8> = (0..slen).map(|i| 0x30 + i as u8).collect();
+                let mut b = StreamBuilder::new(zlib);
+                push_history(&mut b, &h[..32768 - nlit - before]);
+                b.dynamic(&spec, &toks, false);
+                b.stored(&data, false);
+                b.dynamic(&spec, &toks[..nlit.min(2)], true);
+                out.push(b.finish());
+            }
+        }
+    }
+    out
+}
+
 /// All valid zlib wrappers around one body.
 pub fn zlib_wrappers() -> Vec<GenStream> {
     let mut out = vec![];
@@ -539,5 +625,7 @@ pub fn grammar(zlib: Option<(u8, u8)>, thorough: bool) -> Vec<GenStream> {
     v.extend(stored_edges(zlib));
     v.extend(final_block_variants(zlib));
     v.extend(short_code_then_stored(zlib));
+    v.extend(bushy_deep_streams(zlib));
+    v.extend(short_code_then_stored_at_window_end(zlib).into_iter().step_by(if thorough { 1 } else { 2 }));
     v
 }
